@@ -100,10 +100,12 @@ def gen(tier, rng):
     for _ in range(8):
         t = rng.rbytes(16)
         yield (f"ct.tag.eq {cxhx(t)} {cxhx(t)}", "tag")
+        yield (f"ct.tag.ne {cxhx(t)} {cxhx(t)}", "tag")
         for bit in range(128):
             o = bytearray(t)
             o[bit // 8] ^= 1 << (bit % 8)
             yield (f"ct.tag.eq {cxhx(t)} {cxhx(o)}", "tag.bitflip")
+            yield (f"ct.tag.ne {cxhx(t)} {cxhx(o)}", "tag.bitflip")
     # cancellation patterns: differences that vanish under a XOR-, ADD- or word-fold of the operands
     def cancel_pairs(base, word):
         n = len(base)
@@ -129,6 +131,7 @@ def gen(tier, rng):
         t = rng.rbytes(16)
         for o in cancel_pairs(t, 8):
             yield (f"ct.tag.eq {cxhx(t)} {cxhx(o)}", "tag.cancel")
+            yield (f"ct.tag.ne {cxhx(t)} {cxhx(o)}", "tag.cancel")
             yield (f"ct.macresult.eq {cxhx(t)} {cxhx(o)}", "macresult.cancel")
     for n in (2, 3, 4, 8, 9, 16, 17, 32, 40):
         base = rng.rbytes(n)
